@@ -754,6 +754,29 @@ def install(ctx):
             return Window(s, 0, s.n)
         raise Unsupported('drain of a sub-range')
 
+    @M.reg('VecDeque::rotate_left', 'VecDeque::rotate_right', '[T]::rotate_left', '[T]::rotate_right')
+    def rotate(ip, pc, args, dt):
+        r, k = args
+        loc = r.loc
+        s = read_loc(loc)
+        if isinstance(s, Ref):
+            loc = s.loc
+            s = read_loc(loc)
+        if not ip.path.branch(k.t <= s.n, 'rotate bound'):
+            raise PanicPath('panic', 'rotate amount exceeds the length')
+        cap = len(s.elems)
+        if cap == 0:
+            return UNIT
+        left = pc['method'] == 'rotate_left'
+        out = []
+        for j in range(cap):
+            # new[j] = old[(j + k) mod n] (left) / old[(j - k) mod n] (right)
+            src = (j + k.t) if left else (j - k.t + s.n)
+            src = z3.If(s.n > 0, src % z3.If(s.n > 0, s.n, 1), 0)
+            out.append(select(s.elems, z3.If(s.n > j, src, j)))
+        write_loc(loc, Seq(out, s.n, s.kind))
+        return UNIT
+
     @M.reg('VecDeque::push_front')
     def push_front(ip, pc, args, dt):
         r, v = args
